@@ -5,6 +5,39 @@ PY_SUBSET = ('Python semantics of the executed subset as encoded by pyvc.symexec
              'sequences as len/at theories, path-by-path execution, loops cut at invariants)')
 
 PROPS = {
+    'C02': {
+        'level': 'other',
+        'proof': [('contracts.lcs', None)],
+        'custom': [('contracts.b_nm', 'bounded_codegen_roundtrip')],
+        'assumptions': [PY_SUBSET],
+        'explanation': 'the edit scripts consumed by the code generator (lcs.diff) are proved; everything else about '
+                       'C02 (choice of ADVAN/TRANS, parameter renaming, printer, dataset columns) is covered only by a '
+                       'bounded write/read round trip of models reached by <=1 (quick) / <=2 structural '
+                       'transformations and of printed expressions',
+    },
+    'C13': {
+        'level': 'other',
+        'proof': [('contracts.nmdata', None)],
+        'bounded': [('contracts.nmdata', 'src/pharmpy/model/external/nonmem/dataset.py:_convert_data_item',
+                     '14 item texts x 4 NULL values x 4 missing data tokens')],
+        'custom': [('contracts.b_data', 'bounded_dataset_reading')],
+        'assumptions': [PY_SUBSET, FLOAT_AS_REAL],
+        'explanation': 'the order of the item rules in _convert_data_item (NULL substitution, 24 character limit '
+                       'on the substituted item, missing data token, Fortran number) is proved for all strings '
+                       'with convert_fortran_number under an assumed contract; the reader itself (regular '
+                       'expressions, pandas) is only reached by a bounded contract check',
+    },
+    'C14': {
+        'level': 'other',
+        'proof': [('contracts.nmtime', None)],
+        'bounded': [('contracts.nmtime', 'src/pharmpy/modeling/data.py:_translate_nonmem_time_and_date_value',
+                     'TIME x DATE texts x DATE/DAT1/DAT2/DAT3 column names from a fixed list (420 quick / 945 thorough)')],
+        'custom': [('contracts.b_data', 'bounded_dataset_derivations')],
+        'assumptions': [PY_SUBSET, FLOAT_AS_REAL],
+        'explanation': 'the NM-TRAN TIME/DATE translation that the time based derivations start from is proved '
+                       'against the documented DATE forms (strings abstract); the derivations themselves are '
+                       'pandas code and only reached by a bounded contract check',
+    },
     'C07': {
         'level': 'exploration',
         'custom': [('contracts.b_ext', 'bounded_refactorings')],
@@ -27,6 +60,7 @@ PROPS = {
     'C03': {
         'level': 'other',
         'proof': [('contracts.ignored', None)],
+        'custom': [('contracts.b_cst', 'bounded_roundtrip'), ('contracts.b_cst', 'bounded_update_source')],
         'assumptions': [PY_SUBSET],
         'explanation': 'the tokenizer that re-creates the characters lark ignores is proved to reproduce the '
                        'covered source text exactly (tokens contiguous, each carrying its own text); the parser '
@@ -44,6 +78,7 @@ PROPS = {
     'C11': {
         'level': 'other',
         'proof': [('contracts.rvs', None)],
+        'custom': [('contracts.b_rvs', 'bounded_rv_algebra'), ('contracts.b_rvs', 'bounded_rv_numeric')],
         'assumptions': [PY_SUBSET, FLOAT_AS_REAL],
         'explanation': 'the overall covariance matrix is proved to be the block-diagonal composition of the '
                        'distributions (names concatenated in the same order) for all collections; join/unjoin/'
@@ -53,6 +88,7 @@ PROPS = {
         'level': 'other',
         'proof': [('contracts.workflow', None)],
         'bounded': [],
+        'custom': [('contracts.b_search', 'bounded_workflows')],
         'assumptions': [PY_SUBSET],
         'explanation': 'Workflow.as_dask_dict proved for all graphs: injective keys, sink renamed, every task '
                        'stored as (function, *static inputs, *predecessor keys in predecessor order)',
@@ -80,6 +116,7 @@ PROPS = {
         'level': 'other',
         'proof': [('contracts.modeldb', None)],
         'bounded': [],
+        'custom': [('contracts.b_db', 'bounded_store_crash')],
         'assumptions': [PY_SUBSET],
         'explanation': 'PENDING-marker protocol of transaction/snapshot proved as effect traces for every outcome; '
                        'crash points of the store operations enumerated natively (bounded)',
@@ -88,6 +125,8 @@ PROPS = {
         'level': 'other',
         'proof': [('contracts.advan', None)],
         'bounded': [],
+        'custom': [('contracts.b_nm', 'bounded_abbreviated_code'), ('contracts.b_nm', 'bounded_omega_theta_parse'),
+                   ('contracts.b_nm', 'bounded_advan_trans')],
         'assumptions': [PY_SUBSET, FLOAT_AS_REAL],
         'explanation': 'ADVAN/TRANS kinetic tables proved equal to the PREDPP definitions for all parameter '
                        'values; abbreviated-code semantics, record parsing and the compartment wiring bounded',
@@ -96,6 +135,7 @@ PROPS = {
         'level': 'other',
         'proof': [('contracts.statements_df', None)],
         'bounded': [],
+        'custom': [('contracts.b_stmts', 'bounded_dataflow')],
         'assumptions': [PY_SUBSET],
         'explanation': 'last-assignment lookup proved for all statement lists; dependency analyses bounded',
     },
@@ -112,6 +152,7 @@ PROPS = {
         'level': 'other',
         'proof': [('contracts.statements_cs', None)],
         'bounded': [],
+        'custom': [('contracts.b_stmts', 'bounded_compartmental')],
         'assumptions': [PY_SUBSET],
         'explanation': 'compartmental matrix entries and the shared compartment order of the vector accessors '
                        'proved for all graphs; _order_compartments, eqs and to_compartmental_system bounded',
@@ -129,6 +170,7 @@ PROPS = {
         'level': 'other',
         'proof': [('contracts.modelsearch', None)],
         'bounded': [],
+        'custom': [('contracts.b_search', 'bounded_mfl'), ('contracts.b_search', 'bounded_enumeration')],
         'assumptions': [PY_SUBSET],
         'explanation': 'peripheral step rule of the stepwise search proved against docs/modelsearch.rst',
     },
@@ -137,6 +179,7 @@ PROPS = {
         'proof': [('contracts.lcs', None), ('contracts.nm_update', None)],
         'bounded': [('contracts.lcs', 'src/pharmpy/internals/sequence/lcs.py:diff',
                      'all pairs of sequences over {a,b,c} up to length 4 (quick) / 5 (thorough)')],
+        'custom': [('contracts.b_db', 'bounded_record_updates')],
         'assumptions': [PY_SUBSET],
         'explanation': 'edit-script correctness of lcs.diff/_diff/_matrix proved for all sequences',
     },
